@@ -128,6 +128,14 @@ func (c *codecFn) recvFieldOf(v ssa.Value) (*types.Var, bool) {
 	}
 	fa, ok := v.(*ssa.FieldAddr)
 	if !ok || !c.isRecv(fa.X) {
+		// a local interface variable that holds the very value also stored in a receiver field
+		// (`p := newX(); recv.F = p; d.TagAny(tag, &p)`): decoding an interface that holds a pointer decodes into the
+		// pointee, which the field shares
+		if al, isAlloc := v.(*ssa.Alloc); isAlloc {
+			if f, ok := c.aliasCellField(al); ok {
+				return f, true
+			}
+		}
 		return nil, false
 	}
 	st := derefStruct(fa.X.Type())
@@ -135,6 +143,49 @@ func (c *codecFn) recvFieldOf(v ssa.Value) (*types.Var, bool) {
 		return nil, false
 	}
 	return st.Field(fa.Field), true
+}
+
+// aliasCellField: al is a local cell of interface type, assigned exactly once, whose content is also stored into a
+// field of the receiver (the same value, or a load of the cell): the field it shares its pointee with.
+func (c *codecFn) aliasCellField(al *ssa.Alloc) (*types.Var, bool) {
+	if _, isI := derefType(al.Type()).Underlying().(*types.Interface); !isI || al.Referrers() == nil {
+		return nil, false
+	}
+	var val ssa.Value
+	n := 0
+	for _, ref := range *al.Referrers() {
+		if st, ok := ref.(*ssa.Store); ok && st.Addr == ssa.Value(al) {
+			val = st.Val
+			n++
+		}
+	}
+	if n != 1 {
+		return nil, false
+	}
+	var out *types.Var
+	try := func(v ssa.Value) {
+		if v == nil || v.Referrers() == nil {
+			return
+		}
+		for _, ref := range *v.Referrers() {
+			st, ok := ref.(*ssa.Store)
+			if !ok || st.Val != v {
+				continue
+			}
+			if fa, ok := st.Addr.(*ssa.FieldAddr); ok && c.isRecv(fa.X) {
+				if sd := derefStruct(fa.X.Type()); sd != nil {
+					out = sd.Field(fa.Field)
+				}
+			}
+		}
+	}
+	try(val)
+	for _, ref := range *al.Referrers() {
+		if ld, ok := ref.(*ssa.UnOp); ok && ld.Op == token.MUL {
+			try(ld)
+		}
+	}
+	return out, out != nil
 }
 
 func (c *codecFn) isTagParam(v ssa.Value) bool {
